@@ -281,6 +281,8 @@ def prof_make(cfg):
         mask = np.zeros((n, n), bool)
         mask[int(c) - 1:int(c) + 2, int(c) - 1:int(c) + 2] = cfg['mask'] == 'core'
         mask[0:3, :] = True
+    if kind == 'allmasked':          # no unmasked pixel: NaN radial profile, zero curve of growth
+        mask = np.ones((n, n), bool)
     if cfg['nan']:
         d = d.copy()
         d[int(c) + 2, int(c)] = np.nan
@@ -350,7 +352,7 @@ def prof_run(cfg, hist, cache):
 def prof_configs(rng, tier):
     out = []
     for cls in ['RadialProfile', 'CurveOfGrowth']:
-        for kind in ['gauss', 'gauss', 'irrational', 'negative', 'zero']:
+        for kind in ['gauss', 'gauss', 'irrational', 'negative', 'zero', 'allmasked']:
             nb = rng.randint(2, 6)
             if cls == 'RadialProfile':
                 radii = [0.0 if rng.random() < 0.6 else 0.5]
